@@ -199,8 +199,14 @@ class SimBroker(AsyncBroker):
         n = w.kick_count.get(k, 0)
         w.kick_count[k] = n + 1
         net = w.net_spec(k, n)
+        try:
+            tm = self.formatter.loads(bytes(message.message))
+            tm.parse_labels()
+            typed: Any = enc_labels(tm.labels)
+        except Exception as exc:  # noqa: BLE001
+            typed = {"__undecodable__": ["str", type(exc).__name__]}
         w.rec("kick_call", None, k=k, n=n, task_id=message.task_id, task_name=message.task_name,
-              labels=enc_labels(message.labels))
+              labels=enc_labels(message.labels), typed=typed, via=self.node)
         if net.get("pre_us"):
             await asyncio.sleep(net["pre_us"] / 1e6)
         if net.get("fail"):
